@@ -39,6 +39,7 @@ NOINL = frozenset({BATCH + 'ParameterList.build'})
 
 
 def run(cx: Cx):
+    ROLES.update({k: k for k in list(ROLES)})      # reset: one process may analyse several variants
     _score_table(cx)
     _selection(cx)
     _arms(cx)
@@ -327,15 +328,20 @@ def _arms(cx: Cx):
                 continue
             facts[arm].add((repr(RM), repr(W)))
             pb = partial_binding(cx, fn, RM, Sym('<item>'))
-            want = {'model_cls': Sym('model_cls'), 'score_func': Sym('score_func'), 'repetitions': Sym('repetitions'),
-                    'parameters': Sym('<item>'), 'max_timesteps': Sym('max_timesteps')}
             if pb is None or pb[0].qualname != runf.qualname:
                 viol('R-FWD', 'partial-of-_run_model_for_search', f"the worker callable is {RM!r}", cx.where(fn))
             else:
-                bad = {k: repr(pb[1].get(k)) for k, v in want.items() if pb[1].get(k) != v}
-                if bad:
-                    viol('R-FWD', 'partial-binds-each-parameter', f"the search partial binds {bad}; expected model_cls, score_func, "
-                         f"repetitions positionally in that order, max_timesteps by name, and the combination as `parameters`", cx.where(fn))
+                # the worker's parameters are identified by what the front-end binds to them, not by their names
+                inv = {t: k for k, t in pb[1].items() if isinstance(t, Sym)}
+                need = {'model_cls': Sym('model_cls'), 'score_func': Sym('score_func'), 'repetitions': Sym('repetitions'),
+                        'parameters': Sym('<item>'), 'max_timesteps': Sym('max_timesteps')}
+                missing = [r for r, t in need.items() if t not in inv]
+                if missing or len({inv[t] for t in need.values()}) != 5:
+                    viol('R-FWD', 'partial-binds-each-parameter', f"the search partial does not pass {missing or 'distinct parameters'} to the "
+                         f"worker (binding: { {k: repr(v) for k, v in pb[1].items()} }); expected the caller's model_cls, score_func, "
+                         f"repetitions, max_timesteps and the combination, each to its own parameter", cx.where(fn))
+                else:
+                    ROLES.update({r: inv[t] for r, t in need.items()})
     if not reported:
         if facts['serial'] and facts['serial'] == facts['pool']:
             cx.ok('R-SIB', 'serial and pool arms: same partial over the built product list, ordered, every result appended once',
@@ -345,6 +351,10 @@ def _arms(cx: Cx):
 
 
 # ------------------------------------------------------------------------------------------------ worker
+ROLES = {'model_cls': 'model_cls', 'score_func': 'score_func', 'repetitions': 'repetitions', 'parameters': 'parameters',
+         'max_timesteps': 'max_timesteps'}
+
+
 def _is_model_term(t, cls_s, kw_s) -> bool:
     t = strip_versions(t)
     return t in (App('call', (cls_s,), (('**', kw_s),)), App('new:' + CORE + 'Model', (), (('**', kw_s), ('<cls>', cls_s))))
@@ -374,9 +384,10 @@ def _one_scored_run(seg, result, cls_s, kw_s, score_s):
 
 def _worker(cx: Cx):
     fn = cx.fn(RUN)
-    check_driver_loop(cx, fn, ['model_cls', 'parameters'])
-    reps = Sym('repetitions')
-    par = Sym('parameters')
+    check_driver_loop(cx, fn, [ROLES['model_cls'], ROLES['parameters']], limit=ROLES['max_timesteps'])
+    reps = Sym(ROLES['repetitions'])
+    par = Sym(ROLES['parameters'])
+    cls_s, score_s = Sym(ROLES['model_cls']), Sym(ROLES['score_func'])
     okall = True
     n = 0
     from .common import list_facts, _loop_stage_table
@@ -422,7 +433,7 @@ def _worker(cx: Cx):
             b = _Ctx(cx.walker, fn, WalkOptions()).bind_args(helper, None, list(elem.args), dict(elem.kw), State(), False)
             inv = {}
             for k, t in (b or {}).items():
-                if isinstance(t, Sym) and t.name in ('model_cls', 'parameters', 'score_func'):
+                if isinstance(t, Sym) and t.name in (ROLES['model_cls'], ROLES['parameters'], ROLES['score_func']):
                     inv[t.name] = Sym(k)
             if b is None or len(inv) != 3:
                 err = f"the per-repetition helper {helper.name} does not receive model_cls, parameters and score_func unchanged"
@@ -432,7 +443,7 @@ def _worker(cx: Cx):
                     err = f"{helper.name} has no returning path"
                 for q in hps:
                     rv = q.last.data.get('value') if q.end == 'return' else Const(None)
-                    err = err or _one_scored_run(q.events, rv, inv['model_cls'], inv['parameters'], inv['score_func'])
+                    err = err or _one_scored_run(q.events, rv, inv[ROLES['model_cls']], inv[ROLES['parameters']], inv[ROLES['score_func']])
         else:
             # the repetition is the iteration of the filling loop / comprehension on this path
             lps = [e for e in evs if e.kind == 'loop' and strip_versions(e.data.get('iter')) in ranges]
@@ -448,10 +459,10 @@ def _worker(cx: Cx):
                     if len(apps) != 1:
                         err = err or f"{len(apps)} scores recorded in one repetition"
                     else:
-                        err = err or _one_scored_run(seg, apps[0].data.get('args', (None,))[0], Sym('model_cls'), par, Sym('score_func'))
+                        err = err or _one_scored_run(seg, apps[0].data.get('args', (None,))[0], cls_s, par, score_s)
             elif isinstance(recs, Fresh) and recs.kind == 'listcomp':
                 seg = [e for e in evs if e.loops and e.loops[-1] == recs.site or (e.loops and recs.site in e.loops)]
-                err = _one_scored_run(seg, elem, Sym('model_cls'), par, Sym('score_func'))
+                err = _one_scored_run(seg, elem, cls_s, par, score_s)
             else:
                 err = f"{len(lps)} loops over range(repetitions)"
         if err:
